@@ -1469,7 +1469,7 @@ func zChunkKnown(mut []byte, offs []int64) bool {
 // images, then open + full read.
 func TestOpenCorruptedDirectories(t *testing.T) {
 	fx := diskFix(t)
-	vk.Check(t, 6000, 120000, func(rt *rapid.T, c *vk.Case) {
+	vk.Check(t, 6000, 80000, func(rt *rapid.T, c *vk.Case) {
 		comp := rapid.SampledFrom(diskComponents).Draw(rt, "component")
 		img := fx.comp[comp]
 		override := map[string][]byte{}
